@@ -468,7 +468,7 @@ class Translator:
                         # a read of LMDB through the store handle: a read transaction of its own (one
                         # snapshot); whether it falls inside a lock region is decided on the Lean side
                         self.walk(args.items, ctx)
-                        self.emit(ctx, ("mark", "dbread", t.line))
+                        self.emit(ctx, ("mark", "dbread", t.line, b))
                         self.recognised["dbread"] = self.recognised.get("dbread", 0) + 1
                         i += 6; continue
                     if (impl, a) in self.callback_fields:
@@ -588,6 +588,17 @@ def assert_no_locks(path, die):
     if m:
         ln = src[:m.start()].count("\n") + 1
         die(f"gen_locks: {path}:{ln}: `{m.group(0)}` — this file was assumed to take no locks")
+
+
+def outside_reads(evs, inside=False):
+    """names of the store look-ups made at state-lock depth 0 (inside=True: at depth > 0)"""
+    depth, out = 0, []
+    for e in evs:
+        if e[0] == "acq" and e[1] in ("hp", "ts"): depth += 1
+        elif e[0] == "rel" and e[1] in ("hp", "ts"): depth -= 1
+        elif e[0] == "mark" and e[1] == "dbread":
+            if (depth == 0) != inside: out.append(e[3] if len(e) > 3 else "?")
+    return out
 
 
 def lean_ev(e):
@@ -742,6 +753,17 @@ def generate(repo_root, die):
     for name, line, evs in table + seg_table:
         rows.append(f"  (\"{name}\", [{', '.join(lean_ev(e) for e in evs)}])")
     L.append(",\n".join(rows))
+    L.append("]")
+    L.append("")
+    L.append("/-- per entry: the `self.store.<method>` look-ups made while holding NEITHER header_pmmr NOR txhashset (a read")
+    L.append("transaction of their own each), by store method name, in source order -/")
+    L.append("def dbReadsOutside : List (String × List String) := [")
+    L.append(",\n".join(f"  (\"{name}\", [{', '.join(chr(34) + m + chr(34) for m in outside_reads(evs))}])" for name, line, evs in table + seg_table))
+    L.append("]")
+    L.append("")
+    L.append("/-- per entry: the look-ups made inside a header_pmmr / txhashset hold -/")
+    L.append("def dbReadsInside : List (String × List String) := [")
+    L.append(",\n".join(f"  (\"{name}\", [{', '.join(chr(34) + m + chr(34) for m in outside_reads(evs, inside=True))}])" for name, line, evs in table + seg_table))
     L.append("]")
     L.append("")
     L.append("/-- module-level functions of txhashset.rs that hold an LMDB write transaction for the duration of the call -/")
